@@ -224,6 +224,7 @@ class PrintWorld(Renderer):
         self._snap_before = None
         self.sim_time = 0.0
         self._pre = None
+        self._foreign_seen = set()
         self.op_records = {}          # per sender op: decision / episode / printer position (C08)
         self.enc_applied = False
 
@@ -267,7 +268,12 @@ class PrintWorld(Renderer):
     # ------------------------------------------------------------------------------------------------
     def fail(self, prop, clause, msg):
         if prop not in self.mon:
-            self.stats["foreign:" + prop + "." + clause] += 1
+            # another property's clause fired in this property's world.  Counted once per run, reported only by
+            # that property's own check (whose profile keeps its preconditions, e.g. matched cycles, one print).
+            key = "foreign:" + prop + "." + clause
+            if key not in self._foreign_seen:
+                self._foreign_seen.add(key)
+                self.stats[key] += 1
             return
         if self.viol is None:
             self.viol = {"property": prop, "clause": prop + "." + clause, "op": self.op_index,
